@@ -81,8 +81,8 @@ def _cases(draw):
                                'relations': [{'target': f'd-e0-a', 'relType': 'antonym',
                                               'meta': None}]})
             e = {'id': eid, 'meta': None,
-                 'lemma': {'writtenForm': draw(st.sampled_from(['cat', 'dog', 'axe', 'box',
-                                                                 'wolf', f'w{k}'])),
+                 'lemma': {'writtenForm': draw(st.sampled_from(['cat', 'dog', 'axe', 'box', 'ax',
+                                                                 'axes', 'wolf', f'w{k}'])),
                            'partOfSpeech': ss['partOfSpeech']},
                  'senses': senses}
             nfr = draw(st.integers(0, 3))
